@@ -7,7 +7,7 @@ from typing import Dict, List, Set
 from ..flow import ReachingDefs
 from ..program import (AnalysisError, Func, call_name, const_str, dotted,
                        kwarg, norm_key, unparse, walk_no_nested)
-from ..util import is_self_attr, nodes_with_call, str_constants
+from ..util import expand_expr, is_self_attr, nodes_with_call, str_constants
 
 EXPLANATION = (
     'Decided clauses: R-C15.1 (who may drop) DROP TABLE is only produced by '
@@ -166,8 +166,20 @@ def r2_argument_provenance(ctx):
         # the DeleteModel it builds is for that model name
         built = [c for c in walk_no_nested(df.node)
                  if isinstance(c, ast.Call) and call_name(c) == 'DeleteModel']
-        if built and all(c.args and unparse(c.args[0]) == 'model_name'
-                         for c in built):
+        # ... that is, <loop variable>.model_name of the model_sigs loop
+        # that encloses the constructor call (read directly or through
+        # single-assignment locals)
+        def _for_iterated(c):
+            if not c.args:
+                return False
+            for l in loops:
+                if 'model_sigs' in unparse(l.iter) and \
+                        isinstance(l.target, ast.Name) and \
+                        any(x is c for x in ast.walk(l)):
+                    return unparse(expand_expr(df, c.args[0])) == \
+                        '%s.model_name' % l.target.id
+            return False
+        if built and all(_for_iterated(c) for c in built):
             ctx.ok(df, 'DeleteModel is built for the iterated model name',
                    built[0])
         else:
